@@ -145,3 +145,40 @@ func VerifH_C09_Attach() {
 		verifReach("safe-aname")
 	}
 }
+
+// VerifH_C09_Through: walks whose starting fid or intermediate components are
+// nodes of ARBITRARY type (the backend reports a symbolic mode for every walked
+// node): a named walk never calls Walk on a node the backend did not report as
+// a directory - neither on the node the starting fid is bound to (bound by an
+// earlier, legal, one-component walk) nor on an intermediate result - whether
+// it is issued as Twalk or Twalkgetattr, in one request or in two.
+func VerifH_C09_Through() {
+	fs := &verifFS{} // walkMode 0: every walked node gets a symbolic mode
+	if verifChoice(2) == 1 {
+		fs.useWGAall = true
+	}
+	_, cs := verifNewSession(fs, 7)
+	verifAssume(verifErrnoOf(cs.handle(&tattach{fid: 1, Auth: tauth{Authenticationfid: noFID}})) == 0)
+	// fid 5: one legal step from the root onto a node of arbitrary type
+	verifAssume(verifErrnoOf(cs.handle(&twalk{fid: 1, newFID: 5, Names: []string{"x"}})) == 0)
+	start := len(fs.log)
+	var reply message
+	switch verifChoice(4) {
+	case 0:
+		reply = cs.handle(&twalk{fid: 5, newFID: 6, Names: []string{"y"}})
+	case 1:
+		reply = cs.handle(&twalkgetattr{fid: 5, newFID: 6, Names: []string{"y"}})
+	case 2:
+		reply = cs.handle(&twalk{fid: 1, newFID: 6, Names: []string{"a", "b", "c"}})
+	default:
+		reply = cs.handle(&twalkgetattr{fid: 1, newFID: 6, Names: []string{"a", "b"}})
+	}
+	verifCheckLogNames(fs, start)
+	if verifErrnoOf(reply) != 0 {
+		verifReach("walk-refused")
+		_, bound := cs.fids[6]
+		verifAssert(!bound, "a refused walk binds nothing")
+	} else {
+		verifReach("walk-accepted")
+	}
+}
